@@ -22,7 +22,7 @@ def configs(tier):
         add(spec('global', 'clenshaw-curtis', 2, 1, 2)); add(spec('global', 'gauss-legendre', 2, 1, 3)); add(spec('global', 'leja', 2, 2, 3, 'iptotal', aniso=1)); add(spec('global', 'chebyshev', 1, 1, 6)); add(spec('global', 'fejer2', 2, 1, 2, transform=1))
         add(spec('sequence', 'rleja', 2, 1, 4)); add(spec('sequence', 'min-delta', 1, 1, 8)); add(spec('sequence', 'leja', 3, 1, 2))
         add(spec('fourier', 'fourier', 1, 1, 1)); add(spec('fourier', 'fourier', 2, 1, 1))
-        add(spec('localp', 'localp', 2, 1, 2, order=1), 16); add(spec('localp', 'semi-localp', 1, 1, 3, order=2), 12); add(spec('localp', 'localp-boundary', 2, 1, 1, order=1), 12); add(spec('localp', 'localp', 1, 1, 3, order=3), 12)
+        add(spec('localp', 'localp', 2, 1, 2, order=1), 16); add(spec('localp', 'semi-localp', 1, 1, 3, order=2), 12); add(spec('localp', 'localp-boundary', 2, 1, 1, order=1), 12); add(spec('localp', 'localp-boundary', 3, 1, 2, order=1), 24); add(spec('localp', 'semi-localp', 3, 1, 2, order=2), 24); add(spec('localp', 'localp', 3, 1, 2, order=1), 16); add(spec('localp', 'localp', 1, 1, 3, order=3), 12)
         add(spec('wavelet', 'wavelet', 1, 2, 1, order=1), 10)
     else:
         for rule in NESTED_GLOBAL + NON_NESTED:
@@ -41,7 +41,7 @@ def configs(tier):
         for rule in ('localp', 'semi-localp', 'localp-boundary'):
             for order in (-1, 1, 2, 3, 4):
                 add(spec('localp', rule, 1, 1, 4, order=order), 64); add(spec('localp', rule, 2, 1, 2, order=order), 128); add(spec('localp', rule, 2, 2, 3, order=order, transform=1), 200)
-            add(spec('localp', rule, 3, 1, 1, order=1), 100)
+            add(spec('localp', rule, 3, 1, 1, order=1), 100); add(spec('localp', rule, 3, 1, 2, order=1), 150); add(spec('localp', rule, 3, 2, 2, order=2, transform=1), 150); add(spec('localp', rule, 4, 1, 2, order=3), 80)
         for order in (1, 3): add(spec('wavelet', 'wavelet', 1, 2, 2, order=order), 60); add(spec('wavelet', 'wavelet', 2, 3, 1, order=order), 80)
     return cs
 
